@@ -47,6 +47,11 @@ type CaseResult struct {
 
 const caseBatch = 300
 
+// stageBudget bounds the wall-clock time of one case-split stage in the quick tier (a stage of the
+// unchanged tree takes at most about a minute; only changed code produces hard instances).  Batches
+// not started within the budget are reported as not attempted, i.e. the goal is undecided.
+var stageBudget time.Duration
+
 // RunCases checks every goal on every instance. assumes are conjoined as hypotheses (they must be
 // satisfiable on every instance: a vacuity check-sat is issued per instance when they do not
 // simplify to true).
@@ -59,12 +64,29 @@ func RunCases(prelude string, assumes []*Term, goals []CaseGoal, insts []CaseIns
 		return runCasesCore(prelude, assumes, goals, insts, dir, name, timeoutS)
 	}
 	termMu.Lock()
+	// goals that keep free symbols other than open bits belong to another stage (skipped by the core)
+	skipW := make([]bool, len(goals))
+	termMark()
+	for gi, g := range goals {
+		x := Subst(g.Cond, insts[0].Sub, map[*Term]*Term{})
+		fs := map[*Term]bool{}
+		FreeSyms(x, fs, map[*Term]bool{})
+		for f := range fs {
+			if !strings.HasSuffix(f.Name, "!rest") {
+				skipW[gi] = true
+			}
+		}
+	}
+	termRelease()
 	var closed, open []CaseInst
 	for _, in := range insts {
 		termMark()
 		isOpen := false
 		memo := map[*Term]*Term{}
-		for _, g := range goals {
+		for gi, g := range goals {
+			if skipW[gi] {
+				continue
+			}
 			x := Subst(g.Cond, in.Sub, memo)
 			if implMentionsRest(x, map[*Term]bool{}) {
 				if !isOpen && len(open) == 0 && os.Getenv("GOVC_DEBUG_OPEN") != "" {
@@ -402,11 +424,11 @@ func runCasesCore(prelude string, assumes []*Term, goals []CaseGoal, insts []Cas
 			var out string
 			// once many instances are undecided the goal has failed anyway: do not spend minutes per
 			// remaining batch on hard queries (only happens on changed code)
-			if atomic.LoadInt64(&undecided) > 60 {
+			if atomic.LoadInt64(&undecided) > 60 || (stageBudget > 0 && time.Since(t0) > stageBudget) {
 				outs[b].calls = len(exps)
 				for _, e := range exps {
 					if e.goal >= 0 {
-						outs[b].fails = append(outs[b].fails, caseFail{Goal: e.goal, Label: insts[e.inst].Label, Status: "not attempted (goal already undecided on more than 60 instances)"})
+						outs[b].fails = append(outs[b].fails, caseFail{Goal: e.goal, Label: insts[e.inst].Label, Status: "not attempted (goal already undecided on more than 60 instances, or stage time budget used up)"})
 						break
 					}
 				}
@@ -603,7 +625,26 @@ func concretizeInst(res *CaseResult, in CaseInst) (CaseInst, bool) {
 			return c, true
 		}
 	}
-	return in, false
+	// no failing candidate is known: the goal failed without mentioning the open bits (any value is
+	// a witness) or only symbolically; try the representative with all open bits zero
+	termMu.Lock()
+	defer termMu.Unlock()
+	zero := map[*Term]*Term{}
+	for _, v := range in.Sub {
+		fs := map[*Term]bool{}
+		FreeSyms(v, fs, map[*Term]bool{})
+		for f := range fs {
+			if strings.HasSuffix(f.Name, "!rest") {
+				zero[f] = BVLit(0, 8)
+			}
+		}
+	}
+	out := CaseInst{Label: in.Label, Sub: map[*Term]*Term{}}
+	memo := map[*Term]*Term{}
+	for k, v := range in.Sub {
+		out.Sub[k] = Subst(v, zero, memo)
+	}
+	return out, true
 }
 
 func sortTerms(ts []*Term) {
